@@ -108,11 +108,13 @@ LEVEL_TEXT = ('Coq theorems over ALL schedules (induction on the step relation o
               'closure run twice, run by workers only, never by the caller of Execute (c17_pool_exec_once_partial); once both '
               'joins of JoinAll have returned the workers are finished, the queue is empty, shutdown is set, nothing is in a '
               "worker's hand and the closures run are exactly those handed to Execute, each once (c17_pool_joined, "
-              'c17_pool_drained, c17_pool_worker_exit, c17_pool_invariant); NOT proved: the pool wake-up invariant (no deadlock '
+              'c17_pool_drained, c17_pool_worker_exit, c17_pool_invariant), exactly n closures handed in and run '
+              '(c17_pool_submitted, c17_pool_drained_count); wait queues exact in every scenario (c17_waitq_exact: asleep on c '
+              'iff in the queue of c, no duplicates); NOT proved: the pool wake-up invariant (no deadlock '
               'of JoinAll), more than two workers; ThreadPool with two-stage jobs (closures that hand a follow-up to the same '
-              'pool, also after m_shutdown is set): conservation and lock discipline are proved for all schedules '
-              '(c17_poolre_conserved), the drained clause for it is NOT proved (checked per schedule: end=undrained, and shown '
-              'for the owner-first schedule, ex_poolre_late_followup); Future<T>/Future<void> copy-assignment (self, shared, '
+              'pool, also after m_shutdown is set): conservation, lock discipline and the drained clause are proved for all '
+              'schedules (c17_poolre_conserved, c17_poolre_joined, c17_poolre_drained: multiset equality of handed-in and run '
+              'closures, uniqueness of ids not proved; also checked per schedule: end=undrained); Future<T>/Future<void> copy-assignment (self, shared, '
               'over a live state), std::swap and destruction order: modelled (init_fut_asg), lockset/lock discipline proved, '
               'absence of use-after-free only per enumerated schedule plus witnesses (ex_futasg_refcount, ex_futasg_finishes); '
               'FutureImpl with more than two holders; ExecutorThread with callbacks that call Execute again '
